@@ -299,14 +299,12 @@ func (c *AttackCase) judgeSSO(o *h.Outcome) *h.Violation {
 			if !direct {
 				return h.V("nested-assertion-ignored", "%s: accepted an unsigned Response although it carries an (Encrypted)Assertion that is not a direct child (notes %v)", entry, c.Notes)
 			}
-			carried := na + ne
-			if c.NonAsrtE {
-				carried = na // encrypted non-assertions are not assertions
-				if len(resp.Assertions) < na || len(resp.Assertions) > na+ne {
-					return h.V("assertion-dropped", "%s: unsigned Response carries %d assertions (+%d encrypted) but %d were returned", entry, na, ne, len(resp.Assertions))
-				}
-			} else if len(resp.Assertions) != carried {
-				return h.V("assertion-dropped", "%s: unsigned Response carries %d assertion elements but %d were returned (notes %v)", entry, carried, len(resp.Assertions), c.Notes)
+			// every plaintext Assertion element must come back; an EncryptedAssertion contributes one more only
+			// if its plaintext is a SAML assertion, which the oracle cannot know for arbitrary (fuzzed, renamed,
+			// attacker-encrypted) content — so encrypted ones give an upper bound. Dropping an encrypted
+			// assertion that should have been refused is judged by C07's must-reject table.
+			if len(resp.Assertions) < na || len(resp.Assertions) > na+ne {
+				return h.V("assertion-dropped", "%s: unsigned Response carries %d assertions (+%d encrypted) but %d were returned (notes %v)", entry, na, ne, len(resp.Assertions), c.Notes)
 			}
 		}
 		return nil
